@@ -234,32 +234,12 @@ mod proofs {
         c01_t_dispatch_int_add / c01_t_dispatch_prog_int_add = int_add;
         c01_t_dispatch_int_add_missing / c01_t_dispatch_prog_int_add_missing = int_add_missing;
         c01_t_dispatch_bool_and / c01_t_dispatch_prog_bool_and = bool_and;
-        c01_t_dispatch_float_sub / c01_t_dispatch_prog_float_sub = float_sub;
+        // float_sub (both routes) exceeded 1500 s on the full PushState in the thorough validation run and was dropped;
+        // float arithmetic is decided by the STEP harnesses on the lean state, the routing by the other families here
         c01_t_dispatch_exec_noop / c01_t_dispatch_prog_exec_noop = exec_noop;
         c01_t_dispatch_print_space / c01_t_dispatch_prog_print_space = print_space;
     }
 
-    /// input variables push the bound literal onto the stack of its type; a full destination is a fatal
-    /// overflow with the state unchanged.  One harness per variable (concrete name).
-    fn input_var(which: u8, via: bool) {
-        let pre = small_model(1, 1, 1);
-        let max: usize = kani::any();
-        kani::assume(max >= 1 && max <= 2);
-        let (x, y, z): (i64, bool, f64) = (kani::any(), kani::any(), kani::any());
-        let mut p = copy(&pre);
-        let name = match which {
-            0 => { p.i.push(x); "x" }
-            1 => { p.b.push(y); "y" }
-            _ => { p.f.push(z); "z" }
-        };
-        let expect = if max == 1 { Err(Fault::Overflow) } else { Ok(p) };
-        check_dispatch(PushInstruction::InputVar(VariableName::from(name)), via, &pre, max, Some((x, y, z)), expect);
-    }
-    macro_rules! inputs { ($($name:ident = ($w:literal, $via:literal);)*) => {$(
-        #[kani::proof]
-        #[kani::unwind(9)]
-        #[kani::stub(std::hash::RandomState::new, crate::c01_dispatch::fixed_random_state)]
-        fn $name() { input_var($w, $via); crate::witness!(true, "WITNESS reached"); }
-    )*}; }
-    inputs! { c01_t_dispatch_input_int = (0, false); c01_t_dispatch_input_bool = (1, true); c01_t_dispatch_input_float = (2, false); }
+    // (input variables through the real HashMap: all three harnesses exceeded 1500 s - hashbrown + SipHash under CBMC;
+    //  the lookup is decided on the MIR by bin/mirinput instead, see DESIGN 9.7)
 }
